@@ -24,7 +24,7 @@ func init() { All["C12"] = Spec{"exploration", runC12} }
 type respSpec struct {
 	mixed   []respSpec // when set: one spec per item (hc/ic taken from the outer spec)
 	hc, ic  int        // header batch count, number of items
-	op      int // 0 same, 1 another implemented, 2 unregistered, 3 absent
+	op      int        // 0 same, 1 another implemented, 2 unregistered, 3 absent
 	status  uint32
 	reason  int // 0 absent, 1 ItemNotFound, 2 GeneralFailure, 3 PermissionDenied, 4 unnamed
 	payload int // 0 absent, 1 right type, 2 another operation's type, 3 opaque
@@ -175,8 +175,8 @@ func (failedItem) Operation() kmip.Operation { return 0 }
 
 type c12call struct {
 	perItem bool
-	name string
-	ops  []kmip.Operation
+	name    string
+	ops     []kmip.Operation
 	// run performs the call; returns the payloads it got as success (nil entries allowed) and the error
 	run func(cl *kmipclient.Client) (pls []kmip.OperationPayload, err error)
 }
@@ -229,7 +229,9 @@ func c12Calls() []c12call {
 		execCall("RekeyKeyPair", kmip.OperationReKeyKeyPair, func(cl *kmipclient.Client) any { return cl.RekeyKeyPair("id") }),
 		execCall("Revoke", kmip.OperationRevoke, func(cl *kmipclient.Client) any { return cl.Revoke("id") }),
 		execCall("Sign", kmip.OperationSign, func(cl *kmipclient.Client) any { return cl.Sign("id").Data([]byte("d")) }),
-		execCall("SignatureVerify", kmip.OperationSignatureVerify, func(cl *kmipclient.Client) any { return cl.SignatureVerify("id").Data([]byte("d")).Signature([]byte("s")) }),
+		execCall("SignatureVerify", kmip.OperationSignatureVerify, func(cl *kmipclient.Client) any {
+			return cl.SignatureVerify("id").Data([]byte("d")).Signature([]byte("s"))
+		}),
 	}
 	calls = append(calls,
 		c12call{name: "Request", ops: []kmip.Operation{kmip.OperationActivate}, run: func(cl *kmipclient.Client) ([]kmip.OperationPayload, error) {
